@@ -809,32 +809,34 @@ func extraC07(col *Collector, r *RNG, tier string) {
 		opts := defaultOpts()
 		opts.failAt = k
 		res1 := runAttempt(s, m, h, mp, opts)
-		wantFile, wantOff := firstFile, int64(4)
-		if k > 0 {
-			lbl := txs[k-1] // now=<file>:<off>,next=<file>:<off>,…
-			if a := strings.Index(lbl, ",next="); a >= 0 {
-				nx := lbl[a+6:]
-				if b := strings.IndexByte(nx, ','); b >= 0 {
-					nx = nx[:b]
-				}
-				if c := strings.LastIndexByte(nx, ':'); c >= 0 {
-					wantFile = string(unhx(nx[:c]))
-					fmt.Sscan(nx[c+1:], &wantOff)
-				}
-			}
+		// what attempt 1 stored must be a boundary of the log from which the master serves exactly the transactions not
+		// yet accepted (txs[k:]) - there can be several such boundaries (a ROTATE moves the position without a
+		// delivery) - and attempt 2 must ask for exactly the stored position
+		stored := s.VerifNowPos()
+		storedStr := posStr(stored.Filename, stored.Offset)
+		bset := map[string]bool{}
+		for _, b := range strings.Split(fields(ans)["boundaries"], ",") {
+			bset[b] = true
+		}
+		restOK := false
+		if a2, err := theDriver.Ask(h.line(storedStr)); err == nil {
+			restOK = bset[storedStr] && stripFirstNow(fields(a2)["spec"]) == stripFirstNow(strings.Join(txs[k:], "&"))
 		}
 		res2 := runAttempt(s, m, h, mp, defaultOpts())
 		ok, note, key := true, "", ""
 		switch {
 		case !strings.HasPrefix(res1.streamRet, "err:"):
-			ok = true // the failing call was not reached (cannot happen for k < len): nothing to say here
+			ok = true // the failing call was not reached: nothing to say here
+		case !restOK:
+			ok, key = false, "stored-position-after-failure"
+			note = fmt.Sprintf("the handler refused transaction %d; the stored position %s:%d is not a boundary from which exactly the transactions not yet accepted follow", k, stored.Filename, stored.Offset)
 		case len(res2.dumps) != 1:
 			ok, key, note = false, "dump-count", fmt.Sprintf("the attempt after a handler failure sent %d dump requests", len(res2.dumps))
 		default:
 			d := res2.dumps[0]
-			if d.serverID != id || d.flags != 0 || d.file != wantFile || int64(d.pos) != wantOff {
+			if d.serverID != id || d.flags != 0 || d.file != stored.Filename || int64(d.pos) != stored.Offset {
 				ok, key = false, "dump-arguments-after-failure"
-				note = fmt.Sprintf("the handler refused transaction %d; the next attempt asked for id=%d flags=%d file=%q pos=%d, want id=%d flags=0 file=%q pos=%d (end label of the last accepted transaction)", k, d.serverID, d.flags, clip(d.file, 40), d.pos, id, wantFile, wantOff)
+				note = fmt.Sprintf("the handler refused transaction %d; the next attempt asked for id=%d flags=%d file=%q pos=%d, want id=%d flags=0 file=%q pos=%d (the stored resume position)", k, d.serverID, d.flags, clip(d.file, 40), d.pos, id, stored.Filename, stored.Offset)
 			}
 		}
 		col.AddScenario("handshake-after-progress", fmt.Sprintf("handler refuses transaction %d, then a second attempt; %s", k, line), true, ok, true, note, key, fmt.Sprintf("attempt 1: %s; attempt 2 dumps=%d", clip(res1.streamRet, 60), len(res2.dumps)), "")
